@@ -493,8 +493,17 @@ def check_wrappers(case, rec):
                             fld[m_, rs.randint(0, n)] = np.nan
                     edges = np.linspace(0, 4, 6)
                     kw = {}
+                    a_tol, bwid = 0.5, -1.0
                     if w == "vario_dir" and dim > 1:
-                        kw = dict(direction=np.eye(dim)[:2], angles_tol=0.5)
+                        # every option reaches the kernel unchanged: tolerances up to and beyond a right angle (lattice points give
+                        # exactly perpendicular pairs), with and without a bandwidth
+                        a_tol = [0.5, 0.5 * math.pi, 0.75 * math.pi, 3.5][case["seed"] % 4]
+                        bwid = [-1.0, 1.5][(case["seed"] // 4) % 2]
+                        if (case["seed"] // 8) % 2:
+                            pos = np.round(pos)
+                        kw = dict(direction=np.eye(dim)[:2], angles_tol=a_tol)
+                        if bwid > 0:
+                            kw["bandwidth"] = bwid
                     r = lib(gs.vario_estimate, pos, fld if nf > 1 else fld[0], edges, return_counts=True, _tags=tags, **kw)
                     # the wrapper must return what the kernel returns for the same arrays
                     est = kbuild.load("estimator", "installed")
@@ -502,7 +511,7 @@ def check_wrappers(case, rec):
                         dn = np.eye(dim)[:2]
                         from gstools.variogram.variogram import _separate_dirs_test
 
-                        kv, kcnt = est.directional(fld, edges, pos, dn, 0.5, -1.0, False, "m", None)
+                        kv, kcnt = est.directional(fld, edges, pos, dn, a_tol, bwid, False, "m", None)
                     else:
                         kv, kcnt = est.unstructured(fld, edges, pos, "m", "e", None)
                     require(
